@@ -22,4 +22,26 @@ static inline _Bool SymbolString_isComplete(const SymbolString* self) {
   __CPROVER_assert(self->m_data.n <= SS_CAP, "SymbolString valid");
   return self->m_data.n >= lo + 1 && self->m_data.n >= lo + 1 + self->m_data.d[lo];
 }
+#ifdef SS_STUBS_DATA
+static inline _Bool SymbolString_adjustHeader(SymbolString* self) {
+  size_t lo = self->m_isMaster ? 4 : 0;
+  __CPROVER_assert(self->m_data.n <= SS_CAP, "SymbolString valid");
+  if (self->m_data.n <= lo) {
+    for (size_t k = 0; k < 5; k++) { if (k >= self->m_data.n && k <= lo) self->m_data.d[k] = 0; }
+    self->m_data.n = lo + 1;
+  } else if (self->m_data.n >= lo + 255) return 0;
+  self->m_data.d[lo] = (symbol_t)(self->m_data.n - lo - 1);
+  return 1;
+}
+static inline size_t SymbolString_getDataSize(const SymbolString* self) {
+  size_t lo = self->m_isMaster ? 4 : 0;
+  if (self->m_data.n <= lo) return 0;
+  size_t ret = self->m_data.d[lo];
+  return self->m_data.n < lo + 1 + ret ? self->m_data.n - lo - 1 : ret;
+}
+static inline symbol_t SymbolString_dataAt(const SymbolString* self, size_t index) {
+  size_t off = (self->m_isMaster ? 5 : 1) + index;
+  return off < self->m_data.n ? self->m_data.d[off < SS_CAP ? off : 0] : 0;
+}
+#endif
 #endif
